@@ -26,6 +26,8 @@ SHIM_ASSUMPTIONS = [
 
 UNITS = {
     'V-ROW': dict(engine='verus', overlay='v_row.py'),
+    'V-BLOOM': dict(engine='verus', overlay='v_bloom.py'),
+    'V-TLFU': dict(engine='verus', overlay='v_tlfu.py', rlimit=60),
     'K-PR': dict(engine='kani', files=['harness_lib.rs'], module={'harness_lib.rs': 'verif_hooks::harness'},
                  n=dict(quick=2, thorough=3), bound='none (loop-free, payloads K=u8, V=u16 fully symbolic)',
                  functions=[dict(function='PutResult::{eq, clone, Copy}', file='src/lib.rs', line=0, props=['C12'])],
@@ -77,6 +79,22 @@ UNITS = {
                              for f in ['put', 'replace', 'get', 'get_mut', 'peek', 'peek_mut', 'contains', 'remove', 'purge', 'len', 'cap', 'is_empty', 'move_to_frequent', 'partition',
                                        '{recent,frequent,recent_evict,frequent_evict}_len', '{recent,frequent,recent_evict,frequent_evict}_{iter,iter_lru,iter_mut,iter_lru_mut,keys,keys_lru,values,values_lru,values_mut,values_lru_mut}', 'drop']],
                   assumptions=SHIM_ASSUMPTIONS),
+    'K-SKETCH': dict(engine='kani', files=['harness_sketch.rs'],
+                     module={'harness_sketch.rs': 'lfu::tinylfu::sketch::{SKMOD}::verif_hooks::harness'},
+                     configs=['std', 'nostd'], all_configs=True,
+                     n=dict(quick=2, thorough=3), bound='row width 2, 4 or 8 counters (hash, seeds and counter contents unconstrained; depth 4 is a constant)',
+                     timeout=dict(quick=900, thorough=1800),
+                     functions=[dict(function=f, file='src/lfu/tinylfu/sketch/count_min_sketch_{std,core}.rs', line=0, props=['C11', 'C05'])
+                                for f in ['CountMinSketch::increment', 'CountMinSketch::estimate', 'CountMinSketch::reset', 'CountMinSketch::clear', 'CountMinRow::reset', 'CountMinRow::clear']],
+                     assumptions=['sketch row width bounded by 8 counters in the Kani leaf harnesses (the Verus layer above is unbounded in width)']),
+    'K-SLFU': dict(engine='kani', files=['harness_sampled.rs'], support_files=['gen.rs'],
+                   module={'harness_sampled.rs': 'lfu::sampled::verif_hooks::harness'},
+                   n=dict(quick=2, thorough=3), bound='table of <= {N} tracked keys; costs and max_cost in (-2^40, 2^40) so that no i64 sum overflows; fill_sample input <= 2 pairs',
+                   timeout=dict(quick=900, thorough=1800),
+                   functions=[dict(function='SampledLFU::' + f, file='src/lfu/sampled.rs', line=0, props=['C20', 'C05'])
+                              for f in ['increment', 'increment_hashed_key', 'update', 'update_hashed_key', 'remove', 'remove_hashed_key', 'clear',
+                                        'update_max_cost', 'get_max_cost', 'room_left', 'fill_sample', 'hash_key']],
+                   assumptions=SHIM_ASSUMPTIONS[:1] + ['costs and max_cost bounded by 2^40 in magnitude (i64 overflow of the running sum is excluded by precondition, not verified)']),
     'K-ITER': dict(engine='kani', files=['harness_raw_iter.rs'], support_files=['harness_raw.rs', 'gen.rs'],
                    module={'harness_raw_iter.rs': 'lru::raw::verif_hooks::harness_iter'},
                    n=dict(quick=2, thorough=3), bound='list length <= {N}+1, schedule of next/next_back of length {N}+3 (= len()+2 at full length)',
